@@ -62,6 +62,25 @@ __CPROVER_ensures(RET == item && g_c.dec == OLD(g_c.dec) + 1 && g_c.inc == OLD(g
                   g_c.calls == OLD(g_c.calls) && g_c.ordered == OLD(g_c.ordered) && g_c.kth == OLD(g_c.kth) &&
                   g_c.child_failed == OLD(g_c.child_failed));
 
+/* the constructor as cbor_copy's array case sees it: same contract as cbor_new_definite_array (proved:
+ * cont_new_definite_array_bounded) plus a typed ghost alias of the new slot storage, because loop-contract
+ * expressions cannot contain casts to typedef'd pointer types (tool limit) */
+struct verif_copy_res { cbor_item_t **slots; };
+extern struct verif_copy_res g_cq;
+cbor_item_t *cbor_new_definite_array__copy(size_t size)
+__CPROVER_requires(ALLOC_MODEL_BOUND)
+__CPROVER_assigns(ALLOC_GHOSTS, g_cq)
+__CPROVER_ensures(g_realloc_calls == OLD(g_realloc_calls))
+__CPROVER_ensures(RET == NULL ==> (g_live == OLD(g_live) && (g_refused || size >= ((size_t)1 << 60))))
+__CPROVER_ensures(RET == NULL || (__CPROVER_is_fresh(RET, sizeof(cbor_item_t)) && RET->refcount == 1 &&
+                                  RET->type == CBOR_TYPE_ARRAY && AR_META(RET).type == _CBOR_METADATA_DEFINITE &&
+                                  AR_META(RET).allocated == size && AR_META(RET).end_ptr == 0 &&
+                                  size <= VERIF_MAXOBJ / sizeof(cbor_item_t *) &&
+                                  __CPROVER_is_fresh(RET->data, size * sizeof(cbor_item_t *)) &&
+                                  (g_k < size ==> AR_SLOTS(RET)[g_k] == NULL) && g_cq.slots == AR_SLOTS(RET)))
+__CPROVER_ensures(RET == NULL || (g_live == OLD(g_live) + 2 && g_malloc_calls == OLD(g_malloc_calls) + 2 &&
+                                  g_free_calls == OLD(g_free_calls) && g_last_req == size * sizeof(cbor_item_t *)));
+
 cbor_item_t *cbor_build_bytestring(cbor_data handle, size_t length)
 __CPROVER_requires(ALLOC_MODEL_BOUND && length <= VERIF_MAXOBJ && __CPROVER_r_ok(handle, length))
 __CPROVER_requires(!g_s.valid || g_k >= length || handle[g_k] == g_s.byte)
